@@ -4,7 +4,7 @@
 use std::{env, fs, thread};
 //#![feature(getpid)]
 //use std::process;
-use std::io::{BufRead, BufReader};
+use std::io::{BufRead, BufReader, Read};
 use std::mem;
 use std::net::{TcpListener, TcpStream};
 #[cfg(unix)]
@@ -577,10 +577,22 @@ pub fn listen<S: ?Sized + AsRef<str>, H: crate::ConnectionHandler + Send + Sync 
             let (r, mut w) = stream.split().unwrap();
             let mut br = BufReader::new(r);
             let mut iface: Option<String> = None;
+            // bytes `handle()` read ahead but returned unprocessed (behind an upgrade request)
+            let mut unprocessed: Vec<u8> = Vec::new();
             loop {
-                match handler.handle(&mut br, &mut w, iface.clone()) {
-                    Ok((_, i)) => {
+                let mut head = unprocessed.as_slice();
+                let res = handler.handle(&mut (&mut head).chain(&mut br), &mut w, iface.clone());
+                let rest = head.to_vec();
+                match res {
+                    Ok((mut tail, i)) => {
                         iface = i;
+                        tail.extend(rest);
+                        let progress = tail != unprocessed;
+                        unprocessed = tail;
+                        if iface.is_some() && !unprocessed.is_empty() && progress {
+                            // hand them to the upgraded interface before waiting for more
+                            continue;
+                        }
                         match br.fill_buf() {
                             Err(_) => break,
                             Ok([]) => break,
